@@ -33,7 +33,7 @@ RULE = ("seeded random histories (10-40 steps) over an object pool (automata of 
         "online: structure signatures of all pool objects before/after each step; offline: every logged answer vs the "
         "answer of a fresh twin rebuilt from provenance. Non-trivial: history with >=6 answered steps of >=3 kinds; "
         "distinct = (seed, script)."
-        ' Later additions: a feature grammar and an epsilon-chain automaton in the pool, epsilon-edge mutations between queries, runs of repeated contains().')
+        ' Later additions: a feature grammar and an epsilon-chain automaton in the pool, epsilon-edge mutations between queries, runs of repeated contains(); many grammars with repeated symbols in a body, each asked its analyses in a random order.')
 ASSUMPTIONS = ["attribute accessors (.states, .productions, .transitions) return live containers by documented design and "
                "are not conversions", "language-valued answers are normalised to bounded word sets (<=3-4 symbols)"]
 TIERS = {
@@ -360,7 +360,7 @@ def rebuild(pool, ref, memo):
 
 # ---------------------------------------------------------------- history driver
 
-def base_pool(rng):
+def base_pool(rng, cfg4=None):
     pool = []
 
     def add(kind, case):
@@ -369,8 +369,13 @@ def base_pool(rng):
     add("fa", gfa.random_case(rng, max_states=3, max_syms=2, kinds=("dfa",), vcs=["int"], token=True))
     add("regex", rs.render(rs.gen_ast(rng, 2, escaped=0), rng).replace("cd", "a").replace("x1", "b"))
     add("regex", rs.render(rs.gen_ast(rng, 1, escaped=0), rng).replace("cd", "b").replace("x1", "a"))
-    if rng.random() < 0.4:
+    r_ = rng.random()
+    if cfg4:
+        add("cfg", {"repeat": gcfg.repeat_case, "dense": gcfg.dense_case, "two_route": gcfg.two_route_case}[cfg4](rng))
+    elif r_ < 0.3:
         add("cfg", gcfg.two_route_case(rng))
+    elif r_ < 0.6:
+        add("cfg", gcfg.repeat_case(rng))
     else:
         add("cfg", gcfg.random_case(rng, max_vars=3, max_terms=2, max_prods=5, max_body=3, vcs=["str"]))
     add("cfg", gcfg.random_case(rng, max_vars=2, max_terms=2, max_prods=4, max_body=2, vcs=["str", "lower"]))
@@ -410,7 +415,7 @@ def script_random(rng, pool_kinds_fn, length):
 
 def run_history(c, stats):
     rng = random.Random(c["seed"])
-    pool = base_pool(rng)
+    pool = base_pool(rng, c.get("cfg4"))
     for e in pool:
         e["obj"] = build_base(e["origin"][1], e["origin"][2])
         e["kind"] = {"fcfg": "cfg"}.get(e["origin"][1], e["origin"][1])      # a feature grammar is queried as a grammar
@@ -694,6 +699,17 @@ def plan(tier, rng, sl, nslices, stats):
         # many feature grammars (one per seed), each asked a run of words with repeats
         seed = rng.randrange(1 << 30)
         yield {"seed": seed, "script": fcfg_scripts(random.Random(seed))}
+    for rep in range(cfg["targeted"] * 60):
+        seed = rng.randrange(1 << 30)
+        yield {"seed": seed, "script": cfg_scripts(random.Random(seed)), "cfg4": [None, "repeat", "dense", "repeat"][rep % 4]}
+
+
+def cfg_scripts(rng):
+    """many grammars (one per seed), each asked its analyses in a random order, some of them twice"""
+    analyses = ["get_generating_symbols", "get_nullable_symbols", "generate_epsilon", "is_empty", "contains",
+                "to_normal_form", "remove_epsilon", "is_finite", "contains", "get_words"]
+    rng.shuffle(analyses)
+    return [{"target": 4, "op": a, "arg": rng.randrange(6)} for a in analyses + analyses[:4]]
 
 
 def fcfg_scripts(rng):
